@@ -48,6 +48,8 @@ pub struct C08Sys {
 pub struct C08State {
     pub bus: VirtualSignBus<'static>,
     pub shadow: RefSign,
+    /// shadow of the bystander (bounds only)
+    pub by_shadow: Option<RefSign>,
     /// the controller configured this sign and nothing else has talked to it since
     pub set_up: bool,
     /// index of the page list a judged-successful send_pages loaded since
@@ -98,15 +100,20 @@ pub fn make_sys(type_idx: usize, automatic: bool, own_addr: u16, bystander: Opti
     actions.push(Action::Raw(sd(0, custom_block(12, 8, 0xEE)), true)); // unsupported (family,id), tiny size
     actions.push(Action::Raw(sd(0, { let mut b = custom_block(12, 8, 0xEE); b[0] = 0x05; b }), true)); // invalid family
     for off in [0u16, 16, 32] {
-        actions.push(Action::Raw(sd(off, (0..16).map(|j| j as u8 * 3 + 1).collect()), false));
+        // uniform content: the buffer stays a function of its length (page contents are the controller's business here)
+        actions.push(Action::Raw(sd(off, vec![0x11; 16]), false));
     }
     if rich {
-        actions.push(Action::Raw(sd(16, vec![0x77; 15]), false));
-        actions.push(Action::Raw(sd(16, vec![0x78; 1]), false));
+        actions.push(Action::Raw(sd(16, vec![0x11; 15]), false));
+        actions.push(Action::Raw(sd(16, vec![0x11; 1]), false));
     }
     if let Some(b) = bystander {
+        // the bystander is driven through its configuration states and reset, but never into a pixel transfer of its
+        // own (that product is C14's business and multiplies the space by the bystander's buffer contents)
         for m in ctl_for(b, true) {
-            actions.push(Action::Raw(m, false));
+            if !matches!(m, Message::RequestOperation(_, flipdot_core::Operation::ReceivePixels)) {
+                actions.push(Action::Raw(m, false));
+            }
         }
     }
     for op in [CtlOp::Configure, CtlOp::ConfigureIfNeeded, CtlOp::SendPages(0), CtlOp::SendPages(1), CtlOp::SendPages(2), CtlOp::SendPages(3), CtlOp::Show, CtlOp::LoadNext, CtlOp::ShutDown] {
@@ -160,7 +167,7 @@ impl System for C08Sys {
         if let Some(b) = self.bystander {
             signs.insert(0, VirtualSign::new(Address(b), flip(!self.automatic)));
         }
-        C08State { bus: VirtualSignBus::new(signs), shadow: RefSign::new(self.own, self.automatic), set_up: false, loaded: None }
+        C08State { bus: VirtualSignBus::new(signs), shadow: RefSign::new(self.own, self.automatic), by_shadow: self.bystander.map(|b| RefSign::new(b, !self.automatic)), set_up: false, loaded: None }
     }
     fn n_actions(&self) -> usize {
         self.actions.len()
@@ -172,7 +179,7 @@ impl System for C08Sys {
         }
     }
     fn within_bounds(&self, s: &C08State) -> bool {
-        s.shadow.buf.len() <= self.max_buf && s.shadow.count <= self.max_count && self.own_sign(&s.bus).pages().len() <= 3 && hashed_size(self.own_sign(&s.bus)) <= 512 + 5 * (self.max_buf as u64 + 64)
+        s.by_shadow.as_ref().map(|b| b.count <= 2 && b.buf.len() <= 32).unwrap_or(true) && s.shadow.buf.len() <= self.max_buf && s.shadow.count <= self.max_count && self.own_sign(&s.bus).pages().len() <= 3 && hashed_size(self.own_sign(&s.bus)) <= 512 + 5 * (self.max_buf as u64 + 64)
     }
     fn action_json(&self, a: usize) -> Value {
         match &self.actions[a] {
@@ -195,9 +202,16 @@ impl System for C08Sys {
                         let (_, open) = shadow.step(m);
                         let sg = self.own_sign(&bus);
                         shadow.adopt(open, sg.state(), sg.pages().len());
+                        let mut by_shadow = s.by_shadow.clone();
+                        if let Some(b) = by_shadow.as_mut() {
+                            let (_, o) = b.step(m);
+                            b.adopt(o, bus.sign(0).state(), bus.sign(0).pages().len());
+                            b.state = bus.sign(0).state(); // bounds only: never let the shadow's state drift from the real one
+                        }
+                        shadow.state = self.own_sign(&bus).state();
                         let touches_own = !matches!(crate::ctlsys::addr_of(m), Some(x) if x != self.own);
                         let (set_up, loaded) = if touches_own { (false, None) } else { (s.set_up, s.loaded) };
-                        Step { next: Some(C08State { bus, shadow, set_up, loaded }), violations: vec![], tags: 1 << crate::signsys::state_index(self.own_sign(&s.bus).state()), outcome: "raw" }
+                        Step { next: Some(C08State { bus, shadow, by_shadow, set_up, loaded }), violations: vec![], tags: 1 << crate::signsys::state_index(self.own_sign(&s.bus).state()), outcome: "raw" }
                     }
                 }
             }
@@ -337,7 +351,9 @@ impl System for C08Sys {
                     }
                 }
                 // bystander must be untouched by controller operations addressed to the own sign
-                if self.bystander.is_some() && bus.sign(0) != s.bus.sign(0) {
+                // (a bystander that is itself receiving legitimately consumes the unaddressed data/count messages: not judged)
+                let bystander_receiving = self.bystander.is_some() && matches!(s.bus.sign(0).state(), State::ConfigInProgress | State::PixelsInProgress);
+                if self.bystander.is_some() && !bystander_receiving && bus.sign(0) != s.bus.sign(0) {
                     viol.push(("bystander-untouched".into(), format!("{:?}", op), format!("{}: the other sign on the bus changed", ctx)));
                 }
                 if bus == s.bus {
@@ -346,8 +362,19 @@ impl System for C08Sys {
                 // keep stored pages in the shadow for the bounds
                 shadow.pages = sg.pages().iter().map(|p| p.as_bytes().to_vec()).collect();
                 shadow.page_dims = sg.pages().iter().map(|p| (p.width(), p.height())).collect();
+                // bystander shadow: rebuilt from what is observable (its hidden counter restarts; only a bound)
+                let by_shadow = s.by_shadow.as_ref().map(|old| {
+                    if bus.sign(0) == s.bus.sign(0) {
+                        old.clone()
+                    } else {
+                        let mut b = RefSign::new(old.addr, old.automatic);
+                        b.state = bus.sign(0).state();
+                        b.typ = bus.sign(0).sign_type();
+                        b
+                    }
+                });
                 let bad = !viol.is_empty();
-                Step { next: if bad { None } else { Some(C08State { bus, shadow, set_up, loaded }) }, violations: viol, tags, outcome }
+                Step { next: if bad { None } else { Some(C08State { bus, shadow, by_shadow, set_up, loaded }) }, violations: viol, tags, outcome }
             }
         }
     }
